@@ -330,6 +330,8 @@ func init() {
 		}
 		return mkStr(b)
 	}
+	stubs["internal/stringslite.Clone"] = func(e *Exec, fn *ssa.Function, a []Value) Value { return a[0] }
+	stubs["strings.Clone"] = stubs["internal/stringslite.Clone"]
 	stubs["(*strings.Builder).copyCheck"] = func(e *Exec, fn *ssa.Function, a []Value) Value { return nil }
 	stubs["crypto/md5.Sum"] = func(e *Exec, fn *ssa.Function, a []Value) Value {
 		s := a[0].(Slice)
@@ -455,40 +457,116 @@ func (e *Exec) zeroResult(fn *ssa.Function) Value {
 	return t
 }
 
-// stubSprintf: formats natively when every argument is concrete; otherwise the
-// result is an opaque concrete placeholder (content not claimed).
+// stubSprintf: a small formatter.  Concrete arguments are formatted by the
+// real fmt; a symbolic string under %s/%v is spliced in byte for byte; a
+// symbolic integer makes the result an opaque placeholder (content not claimed).
 func stubSprintf(e *Exec, fn *ssa.Function, a []Value) Value {
 	format, ok := a[0].(string)
 	if !ok {
 		return "<fmt>"
 	}
-	var args []interface{}
-	for _, v := range a[1].(Slice) {
-		iv := v.(Iface)
+	var args []Value
+	if sl, ok := a[1].(Slice); ok {
+		args = sl
+	}
+	var out []*Term
+	emit := func(s string) {
+		for i := 0; i < len(s); i++ {
+			out = append(out, e.ts.Const(8, uint64(s[i])))
+		}
+	}
+	ai := 0
+	for i := 0; i < len(format); i++ {
+		c := format[i]
+		if c != '%' {
+			out = append(out, e.ts.Const(8, uint64(c)))
+			continue
+		}
+		j := i + 1
+		for j < len(format) && strings.IndexByte("0123456789+-# .", format[j]) >= 0 {
+			j++
+		}
+		if j >= len(format) {
+			emit(format[i:])
+			break
+		}
+		verb := format[j]
+		spec := format[i : j+1]
+		i = j
+		if verb == '%' {
+			emit("%")
+			continue
+		}
+		if ai >= len(args) {
+			emit("%!" + string(verb) + "(MISSING)")
+			continue
+		}
+		iv := args[ai].(Iface)
+		ai++
 		switch x := iv.v.(type) {
+		case *SymStr:
+			if (verb == 's' || verb == 'v') && len(spec) == 2 {
+				out = append(out, x.b...)
+			} else {
+				return "<fmt:" + format + ">"
+			}
+		case string:
+			emit(fmt.Sprintf(spec, x))
 		case *Term:
 			if !x.IsConst() {
 				return "<fmt:" + format + ">"
 			}
 			if x.w == 0 {
-				args = append(args, x.c == 1)
+				emit(fmt.Sprintf(spec, x.c == 1))
 			} else if iv.t != nil && isSigned(iv.t) {
-				args = append(args, sval(x.w, x.c))
+				emit(fmt.Sprintf(spec, sval(x.w, x.c)))
+			} else if x.w == 8 {
+				emit(fmt.Sprintf(spec, uint8(x.c)))
 			} else {
-				args = append(args, x.c)
+				emit(fmt.Sprintf(spec, x.c))
 			}
-		case string:
-			args = append(args, x)
 		case Float:
-			args = append(args, x.v)
+			emit(fmt.Sprintf(spec, x.v))
+		case Array:
+			// [16]byte and the like under %x
+			conc := true
+			bs := make([]byte, len(x))
+			for k, el := range x {
+				t, ok := el.(*Term)
+				if !ok || !t.IsConst() {
+					conc = false
+					break
+				}
+				bs[k] = byte(t.c)
+			}
+			if !conc {
+				return "<fmt:" + format + ">"
+			}
+			emit(fmt.Sprintf(spec, bs))
+		case Slice:
+			conc := true
+			bs := make([]byte, len(x))
+			for k, el := range x {
+				t, ok := el.(*Term)
+				if !ok || !t.IsConst() {
+					conc = false
+					break
+				}
+				bs[k] = byte(t.c)
+			}
+			if !conc {
+				return "<fmt:" + format + ">"
+			}
+			emit(fmt.Sprintf(spec, bs))
 		case *Value:
-			// error values and the like
-			args = append(args, e.describe(iv))
+			emit(e.describe(iv))
+		case nil:
+			emit("<nil>")
 		default:
-			args = append(args, fmt.Sprintf("<%T>", x))
+			emit(fmt.Sprintf("<%T>", x))
 		}
 	}
-	return fmt.Sprintf(format, args...)
+	return mkStr(out)
 }
 
 func (e *Exec) describe(iv Iface) string {
